@@ -648,6 +648,10 @@ class Executor:
             kind = rv[3]
             if kind == "IntToFloat":
                 return self.th.const_int(v.v)
+            if kind == "FloatToInt" and isinstance(v, Amount) and v.exact is not None:
+                ty = norm_ty(rv[2])
+                import math as _m
+                return Int(_wrap(int(_m.trunc(v.exact)), ty), ty)
             if kind == "IntToInt":
                 ty = norm_ty(rv[2])
                 if isinstance(v, SymInt):
@@ -1093,6 +1097,37 @@ class Executor:
         if head == self.AMT and meth == "abs":
             used("AmountT::abs")
             return [Outcome(st, th.abs(deref(args[0])))]
+        if head == self.AMT and meth in ("max", "min") and len(args) == 2:
+            used("AmountT::" + meth)
+            x_, y_ = deref(args[0]), deref(args[1])
+            if x_.exact is not None and y_.exact is not None:
+                return [Outcome(st, th.const(max(x_.exact, y_.exact) if meth == "max" else min(x_.exact, y_.exact)))]
+            c_ = th.cmp("Ge" if meth == "max" else "Le", x_, y_)
+            return self._fork_cases(st, [(c_, x_), (b_not(c_), y_)])
+        if head == self.AMT and meth in ("round", "floor", "ceil", "trunc", "powi", "is_nan", "is_finite", "is_infinite", "recip", "signum"):
+            x_ = deref(args[0])
+            if x_.exact is not None:
+                import math as _m
+                v_ = x_.exact
+                used("AmountT::%s on a constant" % meth)
+                if meth in ("is_nan", "is_infinite"):
+                    return [Outcome(st, False)]
+                if meth == "is_finite":
+                    return [Outcome(st, True)]
+                if meth == "powi":
+                    e_ = deref(args[1]).v
+                    r_ = (float(v_) ** e_) if self.AMT == "f64" else F(v_) ** e_
+                    return [Outcome(st, th.const(r_))]
+                if meth == "recip":
+                    return [Outcome(st, th.bin("Div", th.const(1.0 if self.AMT == "f64" else F(1)), x_))]
+                if meth == "signum":
+                    return [Outcome(st, th.const((1.0 if v_ >= 0 else -1.0) if self.AMT == "f64" else F(1 if v_ >= 0 else -1)))]
+                f_ = {"round": lambda t: _m.floor(abs(t) + 0.5) * (1 if t >= 0 else -1), "floor": _m.floor, "ceil": _m.ceil, "trunc": _m.trunc}[meth]
+                return [Outcome(st, th.const(float(f_(v_)) if self.AMT == "f64" else F(f_(v_))))]
+            if meth in ("is_nan", "is_infinite") and th.name in ("T_re64", "T_red"):
+                return [Outcome(st, False)]           # the real theories range over finite amounts only
+            if meth == "is_finite" and th.name in ("T_re64", "T_red"):
+                return [Outcome(st, True)]
         if head == "Decimal" and meth == "new_raw":
             used("Decimal::new_raw")
             return [Outcome(st, th.const_decimal(args[0].v, args[1].v))]
@@ -1100,6 +1135,13 @@ class Executor:
             used("Decimal::n_frac_digits (declared digits of constants; any value 0..18 for computed / symbolic amounts)")
             n_ = th.nfd(deref(args[0]))
             return [Outcome(st, Int(n_, "u8") if isinstance(n_, int) else SymInt(n_, "u8"))]
+        # ---- direct invocation of a closure value: <closure as Fn*>::call*(&clo, (args,))
+        if trait in ("Fn", "FnMut", "FnOnce") and meth in ("call", "call_mut", "call_once") and len(args) == 2:
+            clo = deref(args[0])
+            tup = args[1]
+            if isinstance(clo, Closure) and isinstance(tup, Tup):
+                used("closure call (Fn::call)")
+                return self.call_closure(st, clo, list(tup.vals))
         # ---- std's provided methods of PartialOrd / PartialEq for types that only define partial_cmp / eq
         #      (documented: a < b iff partial_cmp == Some(Less), a <= b iff Some(Less | Equal), ..., a != b iff !(a == b))
         if trait == "PartialOrd" and meth in ("lt", "le", "gt", "ge") and head != self.AMT and len(args) == 2:
